@@ -36,6 +36,7 @@ RULE = (
     "non-trivial = >= 2 distinct key columns of equal grade (glexsort) / >= 2 dimensions with a truncation that removes "
     "at least one grid point (index functions)."
 )
+LEVEL_TEXT += (" Also: (lower, upper) pairs of norms, start > stop (nothing lies between), one-dimensional windows around 2**8 and beyond 2**16, numpy-integer dimensions, and 4-6-dimensional grids with bounds up to 14 (quick) / 21 (thorough) under the exactly decidable norms.")
 ASSUMPTIONS = [
     "two numpy CPU-dispatch configurations on this host stand in for 'platform-independent'; other architectures are out of reach",
     "the L_q membership definition (including zero and negative bounds and q=0) is the documented one in cross_truncate's docstring",
